@@ -37,9 +37,38 @@ func (DateTime) String() string {
 func (DateTime) Validate(value bytes.Bytes) {
 	str := value.Unquote().String()
 	_, err := time.Parse(time.RFC3339, str)
-	if err != nil {
+	if err != nil || !isStrictRFC3339(str) {
 		panic(errors.ErrInvalidDateTime)
 	}
+}
+
+// isStrictRFC3339 rejects what time.Parse tolerates but RFC 3339 does not:
+// fields with fewer digits than required (ex: "T7:23:12") and numeric offsets
+// out of range (ex: "+03:60").
+func isStrictRFC3339(s string) bool {
+	const prefix = "2006-01-02T15:04:05"
+	if len(s) < len(prefix)+1 {
+		return false
+	}
+	for i := 0; i < len(prefix); i++ {
+		isDigit := '0' <= s[i] && s[i] <= '9'
+		if wantDigit := '0' <= prefix[i] && prefix[i] <= '9'; wantDigit != isDigit {
+			return false
+		}
+	}
+	if s[len(s)-1] == 'Z' {
+		return true
+	}
+	if len(s) < len(prefix)+6 {
+		return false
+	}
+	o := s[len(s)-6:] // +hh:mm
+	for _, i := range []int{1, 2, 4, 5} {
+		if o[i] < '0' || '9' < o[i] {
+			return false
+		}
+	}
+	return (o[0] == '+' || o[0] == '-') && o[3] == ':' && o[1:3] <= "23" && o[4:6] <= "59"
 }
 
 func (DateTime) ASTNode() jschema.RuleASTNode {
